@@ -22,7 +22,7 @@ func TestC14(t *testing.T) {
 	mon.Main(t, mon.Check{
 		ID:    "C14",
 		Level: "exploration",
-		Rule:  fmt.Sprintf("case kinds: (E) exhaustive small domain: for every maxChunkSize in {0,1..%d} and every first length a in 0..%d, all (b,c) in (0..%d)^2 are sent as the message triple (a,b,c) back to back over one real connection (all sequences of 1-3 messages of lengths 0..3M+1 occur as sub-sequences), alternating directions; (R) random payloads up to 1 MiB with chunk sizes {1,7,1000,32768} with and without link faults; (T) deadline cases: SetRecvTimeout / SetSendTimeout chosen so that the timer fires between two chunks of one message (a link delay is placed before a chosen chunk / the window is made full after a chosen chunk by delaying ACKs), the timed-out call is retried until it succeeds. Oracle: the list of Recv results equals, in number and bytes, the list of messages whose Send succeeded. Non-trivial = a case in which at least one message spanned >=2 chunks or was empty; distinct = (kind, chunk size, lengths / timeout placement).", c14M, 3*c14M+1, 3*c14M+1),
+		Rule:  fmt.Sprintf("case kinds: (E) exhaustive small domain: for every maxChunkSize in {0,1..%d} and every first length a in 0..%d, all (b,c) in (0..%d)^2 are sent as the message triple (a,b,c) back to back over one real connection (all sequences of 1-3 messages of lengths 0..3M+1 occur as sub-sequences), alternating directions; (R) random payloads up to 1 MiB with chunk sizes {1,3,7,64,1000,32768} with and without link faults; in E and R the receiving endpoint's own chunk option differs from the sender's in about half of the cases (off, or another size: the option is local to the sender); (T) deadline cases: SetRecvTimeout / SetSendTimeout chosen so that the timer fires between two chunks of one message (a link delay is placed before a chosen chunk / the window is made full after a chosen chunk by delaying ACKs), the timed-out call is retried until it succeeds. Oracle: the list of Recv results equals, in number and bytes, the list of messages whose Send succeeded. Non-trivial = a case in which at least one message spanned >=2 chunks or was empty; distinct = (kind, chunk size, lengths / timeout placement).", c14M, 3*c14M+1, 3*c14M+1),
 		Assumptions: []string{
 			"one sender and one receiver goroutine per direction (concurrent Send calls interleave chunks by design)",
 			"the exhaustive slice enumerates lengths and chunk sizes completely, not schedules",
@@ -124,6 +124,22 @@ func runC14Exhaustive(c *mon.Case, chunk, a int) {
 		}
 	}
 	conf := eng.GBNConf{N: []uint8{1, 2, 5, 20}[(chunk+a)%4], Chunk: chunk, Static: true, Resend: time.Second, Lat: time.Millisecond}
+	// The maximum chunk size is an option of the sending side only: in two
+	// thirds of the cases the receiving endpoint is configured differently
+	// (splitting off, or another size).
+	serverSends := (chunk+a)%2 == 1
+	if a%3 != 0 {
+		rc := 0
+		if a%3 == 2 {
+			rc = chunk%c14M + 1
+		}
+		conf.ChunkSrvSet = true
+		if serverSends {
+			conf.Chunk, conf.ChunkSrv = rc, chunk
+		} else {
+			conf.Chunk, conf.ChunkSrv = chunk, rc
+		}
+	}
 	rep := map[string]any{"kind": "E", "chunk": chunk, "first_len": a, "conf": conf.String()}
 	synctest.Test(c.T, func(t *testing.T) {
 		ctx, cancel := context.WithCancel(context.Background())
@@ -196,6 +212,13 @@ func runC14Random(c *mon.Case) {
 	sc.SizesA, sc.SizesB = sizes, nil
 	if rng.Intn(2) == 0 {
 		sc.SizesA, sc.SizesB = nil, sizes
+		// the server sends: the client may be configured differently
+		if rng.Intn(2) == 0 {
+			sc.Conf.ChunkSrvSet, sc.Conf.ChunkSrv = true, chunk
+			sc.Conf.Chunk = []int{0, 1, chunk + 1}[rng.Intn(3)]
+		}
+	} else if rng.Intn(2) == 0 {
+		sc.Conf.ChunkSrvSet, sc.Conf.ChunkSrv = true, []int{0, 1, chunk + 1}[rng.Intn(3)]
 	}
 	if rng.Intn(3) != 0 {
 		sc.FaultC2S = eng.RandFault(rng, time.Second)
